@@ -41,7 +41,6 @@ impl CoreRef {
   #[verifier::external_body] pub fn verif_sndtimeo(&self) -> Option<Duration> { unimplemented!() }
   #[verifier::external_body] pub fn verif_rcvtimeo(&self) -> Option<Duration> { unimplemented!() }
 }
-impl Duration { #[verifier::external_body] pub fn is_zero(&self) -> (r: bool) ensures r == (self.ns() == 0) { unimplemented!() } }
 #[verifier::external_body]
 pub struct IfaceRef { x: u8 }
 impl IfaceRef { #[verifier::external_body] pub async fn send_multipart(&self, frames: FrameBatch) -> Result<(), ZmqError> { unimplemented!() } }
